@@ -71,10 +71,7 @@ def judge(prop, res, args):
         prev = None
         for ln in R.parse_out(res.get("out") or ""):
             if ln["kind"] == "?" or (ln["kind"] in "dh" and ln["file"] != "t.rb"):
-                if prev is not None and prev["kind"] in "dh":
-                    key = "badline:newline-in-message-after:" + line_shape(prev["msg"])
-                else:
-                    key = "badline:" + line_shape(ln["msg"])
+                key = badline_key(prev, ln)
                 bad.append((key, "printed line outside the grammar: %r (previous line %r)" % (ln["msg"][:120], prev and prev["msg"][:80])))
                 break
             prev = ln
@@ -82,6 +79,18 @@ def judge(prop, res, args):
                 bad.append(("badline:hint-without-i", "hint printed without -i"))
                 break
     return bad
+
+
+def badline_key(prev, ln):
+    """A line outside the grammar is almost always the tail of a record or message that
+    contains a raw newline; name it by what was cut."""
+    if ln["msg"] == "%" or (prev is not None and prev["kind"] in "sxa"):
+        return "badline:newline-in-record"
+    if prev is not None and prev["kind"] in "dh" and prev["msg"].endswith("'") and ln["msg"].startswith("'"):
+        return "badline:newline-as-method-name-in-message"
+    if prev is not None and prev["kind"] in "dh":
+        return "badline:newline-in-message-after:" + line_shape(prev["msg"])
+    return "badline:" + line_shape(ln["msg"])
 
 
 def short(site):
@@ -113,6 +122,8 @@ def run(prop, tier, work):
             jobs.append({"files": {"t.rb": text}, "args": ["t.rb"] + m, "eof_budget": EOF_BUDGET, "tag": tag})
     # traced sample for trace validation
     ntrace = 1500 if tier == "quick" else 12000
+    for i, j in enumerate(jobs):
+        j["idx"] = i
     for i in rng.sample(range(len(jobs)), min(ntrace, len(jobs))):
         jobs[i]["trace"] = True
 
@@ -129,7 +140,7 @@ def run(prop, tier, work):
         if res.get("died") and not res.get("cls"):
             v.count("worker_died")
         if job.get("trace") and not res.get("died"):
-            traces.append(R.trace_of("%s|%s" % (job["tag"], " ".join(job["args"])), res, 0,
+            traces.append(R.trace_of("#%d" % jobs.index(job) if False else "#%d|%s|%s" % (job["idx"], job["tag"], " ".join(job["args"])), res, 0,
                                      {"h"} if "-i" in job["args"] else set()))
         for key, what in judge(prop, res, job["args"]):
             v.count("real_clause_violations")
@@ -167,7 +178,9 @@ def run(prop, tier, work):
                           "output line outside the grammar of this mode or naming another file",
                           "previous run never reached exit 0"):
                 continue  # already judged above on the same run
-            v.fail("lifecycle:" + reason, "run %s is not a behaviour of Run.tla: %s" % (rid, reason), {"run.txt": rid})
+            j = jobs[int(rid[1:].split("|")[0])]
+            v.fail("lifecycle:" + reason, "run %s (input %r) is not a behaviour of Run.tla: %s" % (rid, j["files"]["t.rb"][:80], reason),
+                   C.job_files_for_replay({"files": j["files"], "args": j["args"]}))
 
     # differential guard: a sample of conforming worker results must equal the black-box binary
     drift = differential_guard(work, jobs, results, rng, 120 if tier == "quick" else 400)
@@ -212,7 +225,11 @@ def differential_guard(work, jobs, results, rng, n):
         if r.get("timeout"):
             # a loaded machine can trip the 500 ms watchdog; re-run alone
             r = C.confirm_alone(work, {"files": jobs[i]["files"], "args": jobs[i]["args"]}, runs=1)[0]
-        if (r.get("out") or "") != (results[i].get("out") or "") or r.get("exit") != results[i].get("exit"):
+        a, b = (r.get("out") or ""), (results[i].get("out") or "")
+        if "--define" in jobs[i]["args"]:
+            # --define prints a set of records straight from map iteration: compare as multisets
+            a, b = "\n".join(sorted(a.split("\n"))), "\n".join(sorted(b.split("\n")))
+        if a != b or r.get("exit") != results[i].get("exit"):
             diffs.append((jobs[i]["files"]["t.rb"][:80], jobs[i]["args"], (r.get("out") or "")[:100], (results[i].get("out") or "")[:100]))
     return diffs
 
